@@ -190,8 +190,10 @@ def obs_str(c, live=()):
             if _kind(x) == 'coll':
                 idx = [i for i, o in enumerate(live) if o is x]
                 items.append('c:%s' % (idx[0] if idx else '?'))
-            else:
+            elif isinstance(x, (int, float)):
                 items.append('s:' + _frac(x))
+            else:
+                items.append('?:' + type(x).__name__)       # the caller's item was replaced
         return 'args ' + ','.join(items)
     cls = CLS.get(c._collection_type, '?')
     h = c.header
@@ -280,7 +282,7 @@ def snapshot(c):
     if kind == 'list':
         return ('list', tuple(c))
     if kind == 'args':
-        return ('args', tuple(id(x) if _kind(x) == 'coll' else x for x in c))
+        return ('args', tuple(id(x) if _kind(x) == 'coll' else repr(x)[:40] for x in c))
     if kind == 'wea':
         return ('wea', snapshot(c.direct_normal_irradiance), snapshot(c.diffuse_horizontal_irradiance),
                 json.dumps(c.metadata, sort_keys=True, default=str), tuple(_loc_tokens(c.location)),
@@ -1152,6 +1154,16 @@ def gen_step(rng, infos, malformed, alias_ok=False):
     return {'k': 'm', 'on': on, 'op': op, 'args': a}
 
 
+def epw_fixed_history():
+    """IP object, data cut short, export fails: the object must read as before (f030132, 77cbf95)."""
+    db = [float(i % 30) for i in range(8760)]
+    dp = [float(i % 20) - 5 for i in range(8760)]
+    return [{'k': 'en', 'db': db, 'dp': dp}, {'k': 'ec', 'on': 0, 'ip': True},
+            {'k': 'ew', 'on': 0, 'hoys': [3, 9000]},
+            {'k': 'wm', 'on': 0, 'mk': 1, 'op': 'truncate', 'args': {'n': 4000}},
+            {'k': 'ef', 'on': 0}, {'k': 'ec', 'on': 0, 'ip': False}, {'k': 'ef', 'on': 0}]
+
+
 def epw_history(rng, sky_ok):
     """A short history around one EPW object (the value lists are a full year long)."""
     base = [rng.randint(-20, 35) for _ in range(24)]
@@ -1360,7 +1372,7 @@ def _correspondence(ctx):
         lines.append(line)
         traces.append(tr)
         hists.append(h)
-    n = ctx.n(1300, 30000)
+    n = ctx.n(1500, 30000)
     for _ in range(n):
         line, tr, h = run_history(rng, ctx)
         lines.append(line)
@@ -1370,8 +1382,8 @@ def _correspondence(ctx):
     if not sky_ok:
         ctx.notes.append('EPW.sky_temperature still shares the EPW metadata dict: epwSky not compared '
                          '(known finding C14-epw-sky-temperature-metadata)')
-    for _ in range(ctx.n(2, 20)):
-        steps = epw_history(rng, sky_ok)
+    epw_hists = [epw_fixed_history()] + [epw_history(rng, sky_ok) for _ in range(ctx.n(2, 20))]
+    for steps in epw_hists:
         line, tr, kept = run_steps(steps)
         lines.append(line)
         traces.append(tr)
@@ -1464,12 +1476,20 @@ def check_derive(inp):
     if res is None:
         return None
     nres = len(res)
+    # an operation that returns a new object must not hand back one of its sources
+    for r in res:
+        for k, o in enumerate(objs):
+            if r is o:
+                return {'required': '%s returns a new object' % d['op'], 'observed': 'the result is source %d' % k,
+                        'sig': dict(sig, side='result-is-source')}
     # results of a derivation from an immutable collection that are immutable themselves must hold tuples
     for r in res:
         if not r.is_mutable and not isinstance(r.values, tuple):
             return {'required': 'immutable collection exposes a tuple', 'observed': type(r.values).__name__,
                     'sig': dict(sig, side='immutable-values-type')}
-    for op, ma in ORACLE_MUTATORS:
+    which = inp.get('mutators')
+    muts = ORACLE_MUTATORS if which is None else [ORACLE_MUTATORS[i] for i in which]
+    for op, ma in muts:
         for side in ('result', 'source'):
             for idx in range(nres if side == 'result' else len(inp['build'])):
                 objs, a = fresh()
@@ -1562,11 +1582,11 @@ def check_history(inp):
 
 
 def _wea(n_meta=True):
-    from ladybug.wea import Wea
-    from ladybug.location import Location
-    loc = Location('City', 'ST', 'Country', 40.0, -70.0, -5.0, 10.0, source='src')
-    return Wea.from_annual_values(loc, [float(i % 500) for i in range(8760)],
-                                  [float(i % 90) for i in range(8760)])
+    """A two-day Wea that builds its own collections (Wea.from_dict)."""
+    dts = [d * 1440 + h * 60 for d in range(2) for h in range(24)]
+    return _wea_from_dict({'loc': ['src', 'Country', 'City'], 'dts': dts,
+                           'dni': [float(i * 37 % 500) for i in range(48)],
+                           'dhi': [float(i * 11 % 90) for i in range(48)]})
 
 
 def _wea_snap(w):
@@ -1633,6 +1653,24 @@ def check_misc(inp):
             return {'required': 'immutable collection unchanged by %s' % inp.get('mutator', 'meta_set'),
                     'observed': c.header.metadata, 'sig': dict(sig, mutator=inp.get('mutator', 'meta_set'))}
         return None
+    if what == 'wea_siblings_from_dict':
+        w = _wea_from_dict({'loc': ['src', 'Land', 'Town'], 'dts': [0, 60, 120], 'dni': [1, 2, 3], 'dhi': [4, 5, 6]})
+        before = _wea_snap(w)
+        w.direct_normal_irradiance.header.metadata['edited'] = 1
+        after = _wea_snap(w)
+        if after[1] != before[1] or after[2] != before[2]:
+            return {'required': 'diffuse collection / Wea metadata unchanged by an edit of the direct one',
+                    'observed': 'changed', 'sig': sig}
+        return None
+    if what == 'wea_duplicate_location':
+        w = _wea()
+        d = w.duplicate()
+        before = _wea_snap(w)
+        d.location.city = 'Elsewhere'
+        if _wea_snap(w) != before:
+            return {'required': 'Wea unchanged by an edit of the Location of its duplicate',
+                    'observed': str(w.location), 'sig': sig}
+        return None
     if what.startswith('wea_'):
         w = _wea()
         before = _wea_snap(w)
@@ -1658,14 +1696,16 @@ def check_misc(inp):
             'wea_siblings': lambda: None, 'wea_directional_siblings': lambda: None,
         }[what]
         if what == 'wea_directional_siblings':
-            res = w.directional_irradiance(45, 180)
-            snaps = [snapshot(c) for c in res]
-            res[0].convert_to_unit('kW/m2')
-            res[0].header.metadata['edited'] = 1
-            for k in (1, 2, 3):
-                if snapshot(res[k]) != snaps[k]:
-                    return {'required': 'result %d of directional_irradiance unchanged by an edit of result 0' % k,
-                            'observed': (res[k].header.unit, res[k].values[12]), 'sig': sig}
+            for j in range(4):
+                res = w.directional_irradiance(45, 180)
+                snaps = [snapshot(c) for c in res]
+                res[j].convert_to_unit('kW/m2')
+                res[j].header.metadata['edited'] = 1
+                for k in range(4):
+                    if k != j and snapshot(res[k]) != snaps[k]:
+                        return {'required': 'result %d of directional_irradiance unchanged by an edit of '
+                                            'result %d' % (k, j),
+                                'observed': (res[k].header.unit, res[k].values[12]), 'sig': sig}
             return None
         r = derive()
         if _wea_snap(w) != before:
@@ -1841,12 +1881,19 @@ def _sweep_cases(ctx):
                         spec.update(dtype='Power', unit='W')
                     sib = _twin(spec, vals=[(v % 7) + 1 for v in spec['vals']], mutable=rng.random() < 0.5,
                                 meta={'k2': [5]})
-                    yield 'derive', {'build': [spec, sib],
-                                     'derive': {'on': 0, 'op': op, 'args': _derive_args(rng, op, spec, 2)}}
+                    case = {'build': [spec, sib],
+                            'derive': {'on': 0, 'op': op, 'args': _derive_args(rng, op, spec, 2)}}
+                    if ctx.quick and not ctx.searching:
+                        # quick tier: the five core mutators and three of the others per case
+                        core_m = [0, 5, 7, 10, 4]
+                        rest = [i for i in range(len(ORACLE_MUTATORS)) if i not in core_m]
+                        case['mutators'] = sorted(core_m + rng.sample(rest, 3))
+                    yield 'derive', case
 
 
 MISC = ['header_duplicate', 'wea_exports', 'wea_duplicate', 'wea_filter_pattern', 'wea_filter_ap', 'wea_filter_hoys',
-        'wea_ghi', 'wea_dhi', 'wea_directional', 'wea_siblings', 'wea_directional_siblings']
+        'wea_ghi', 'wea_dhi', 'wea_directional', 'wea_siblings', 'wea_directional_siblings',
+        'wea_siblings_from_dict', 'wea_duplicate_location']
 EPW_MISC = [('epw_to_file_string', False), ('epw_to_wea', False), ('epw_to_wea_hoys', False),
             ('epw_to_file_string_short', False), ('epw_to_file_string', True), ('epw_to_wea', True),
             ('epw_to_file_string_short', True)]
@@ -1887,7 +1934,7 @@ def _oracle_cases(ctx):
     for w in MISC:
         yield 'misc', {'what': w}
     if os.path.exists(_epw_path()):
-        for w, ip in (EPW_MISC if not ctx.quick or ctx.searching else EPW_MISC[:2] + EPW_MISC[3:5]):
+        for w, ip in (EPW_MISC if not ctx.quick or ctx.searching else EPW_MISC[:2] + EPW_MISC[3:5] + EPW_MISC[6:]):
             yield 'misc', {'what': w, 'ip': ip}
     n = 400 if ctx.quick else 6000
     if ctx.searching:
